@@ -660,6 +660,9 @@ def _san(s):
     return str(s).lower().replace(" ", "_")
 
 
+_C17_SCANNED = False
+
+
 def _coord_value(text, limit):
     """independent reading of the coordinate texts the episodes use: d°m'[NSEW] or a numeral"""
     import re
@@ -788,6 +791,24 @@ def _c17_episode(rng, steps):
         if sorted((x.name, x.region, x.timezone) for l in res.values() for x in l) != sorted(groups[g]):
             return {"clause": "the group holds exactly the records of that time-zone group",
                     "query": g, "history": history}
+    global _C17_SCANNED
+    if builtin and not _C17_SCANNED:
+        _C17_SCANNED = True
+        # every built-in place is found by its bare name (none is shadowed by a group key), and
+        # what comes back is the stored object itself
+        fresh0 = geo.database()
+        objs = list(geo.all_locations(fresh0))
+        for rec in objs:
+            try:
+                res = geo.lookup(rec.name, fresh0)
+            except Exception as exc:  # noqa: BLE001
+                return {"clause": "a bare built-in name is found", "query": rec.name, "got": repr(exc)}
+            if isinstance(res, dict):
+                return {"clause": "a bare built-in name returns a stored record of that name (here a time-zone "
+                                  "group of the same name shadows it)", "query": rec.name}
+            if not any(res is x for x in objs):
+                return {"clause": "lookup returns a stored record (the object the database holds), not a copy",
+                        "query": rec.name}
     known = [n for n, r, t in log if "," not in n and n.strip("\"'") == n][:3]
     for q in ["no such place", "london,nowhere-at-all", "zz,yy"] + [n + ",nowhere-at-all" for n in known]:
         try:
@@ -812,6 +833,17 @@ def _c17_episode(rng, steps):
 
 
 def search_C17(rng, deadline, broken):
+    global _C17_SCANNED
+    _C17_SCANNED = False
+    r0 = None
+    for s0 in range(8):                     # an episode that starts from the built-in database
+        r0 = _c17_episode(random.Random(1000 + s0), 0)
+        if _C17_SCANNED:
+            break
+    if r0:
+        r0["episode_seed"] = 1000
+        r0["steps"] = 0
+        return r0
     i = 0
     while time.time() < deadline:
         i += 1
